@@ -323,6 +323,119 @@ SetVar(st, env, x, v) ==
     IN IF e = 0 THEN [ok |-> FALSE, st |-> st]
        ELSE [ok |-> TRUE, st |-> [st EXCEPT !.envs[e].vs[VarPos(st.envs[e].vs, x, 1)].v = v]]
 
+(* ------------------------------- freeze -------------------------------- *)
+(* `freeze e` (C17): every FREE identifier of e - one that the evaluator's scoping rules above do   *)
+(* not bind inside e - is resolved ONCE, now, and replaced by its value (node "frozen"); freezing   *)
+(* fails (a thrown name error) when a free identifier is unbound or when e assigns to / mutates a   *)
+(* variable it does not declare itself.  b is the sequence of names bound so far inside e.          *)
+(* Binders follow the evaluator: a declaration binds for the rest of its scope (sequences, if       *)
+(* branches and try bodies open no scope), loop clauses / while bodies / lambda parameters / catch  *)
+(* variables bind inside a fresh scope, a declaration's own initialiser and a lambda's default      *)
+(* expressions see the names bound before it.                                                       *)
+InSeq(x, b) == \E q \in 1..Len(b) : b[q] = x
+RECURSIVE LvNames(_)
+RECURSIVE LvNamesSeq(_, _, _)
+LvNamesSeq(xs, i, acc) == IF i > Len(xs) \/ Len(acc) < 0 THEN acc ELSE LvNamesSeq(xs, i + 1, acc \o LvNames(xs[i]))
+LvNames(lv) == IF lv.k = "id" THEN <<lv.x>> ELSE IF lv.k = "ignore" THEN <<>> ELSE LvNamesSeq(lv.xs, 1, <<>>)
+\* names an expression declares in the scope it is evaluated in
+RECURSIVE Decls(_)
+RECURSIVE DeclsSeq(_, _, _)
+DeclsSeq(es, i, acc) == IF i > Len(es) \/ Len(acc) < 0 THEN acc ELSE DeclsSeq(es, i + 1, acc \o Decls(es[i]))
+Decls(e) == CASE e.n = "decl" -> LvNames(e.x)
+              [] e.n = "seq" -> DeclsSeq(e.es, 1, <<>>)
+              [] e.n = "if" -> Decls(e.a) \o (IF e.b.n = "none" THEN <<>> ELSE Decls(e.b))
+              [] e.n = "try" -> Decls(e.b)
+              [] OTHER -> <<>>
+
+FzOk(e) == [ok |-> TRUE, e |-> e]
+FzFail == [ok |-> FALSE, e |-> None]
+RECURSIVE Frz(_, _, _, _)
+RECURSIVE FrzList(_, _, _, _, _, _, _)
+RECURSIVE FrzClauses(_, _, _, _, _, _)
+RECURSIVE FrzParams(_, _, _, _, _, _)
+\* a list of expressions; thread = TRUE: each element's declarations are bound for the following ones
+FrzList(st, env, es, i, b, acc, thread) ==
+    IF i > Len(es) \/ Len(acc) < 0 THEN [ok |-> TRUE, es |-> acc, b |-> b]
+    ELSE LET f == Frz(st, env, es[i], b)
+         IN IF ~f.ok THEN [ok |-> FALSE, es |-> acc, b |-> b]
+            ELSE FrzList(st, env, es, i + 1, IF thread THEN b \o Decls(es[i]) ELSE b, Append(acc, f.e), thread)
+FrzOpt(st, env, e, b) == IF e.n = "none" THEN FzOk(e) ELSE Frz(st, env, e, b)
+FrzIxs(st, env, ixs, b) ==
+    \* index expressions / slices of a target
+    LET flat == [q \in 1..Len(ixs) |-> IF ixs[q].n = "slice" THEN [n |-> "list", es |-> <<>>] ELSE ixs[q]]
+        f == FrzList(st, env, flat, 1, b, <<>>, FALSE)
+        los == FrzList(st, env, [q \in 1..Len(ixs) |-> IF ixs[q].n = "slice" /\ ixs[q].lo.n # "none" THEN ixs[q].lo ELSE [n |-> "list", es |-> <<>>]], 1, b, <<>>, FALSE)
+        his == FrzList(st, env, [q \in 1..Len(ixs) |-> IF ixs[q].n = "slice" /\ ixs[q].hi.n # "none" THEN ixs[q].hi ELSE [n |-> "list", es |-> <<>>]], 1, b, <<>>, FALSE)
+    IN IF ~f.ok \/ ~los.ok \/ ~his.ok THEN [ok |-> FALSE, ixs |-> ixs]
+       ELSE [ok |-> TRUE, ixs |-> [q \in 1..Len(ixs) |->
+                IF ixs[q].n = "slice" THEN [n |-> "slice", lo |-> IF ixs[q].lo.n = "none" THEN None ELSE los.es[q],
+                                                           hi |-> IF ixs[q].hi.n = "none" THEN None ELSE his.es[q]]
+                ELSE f.es[q]]]
+FrzTarget(st, env, t, b) ==
+    \* frozen code cannot write to a variable it does not declare itself
+    IF ~InSeq(t.x, b) THEN [ok |-> FALSE, t |-> t]
+    ELSE LET f == FrzIxs(st, env, t.ix, b) IN [ok |-> f.ok, t |-> [t EXCEPT !.ix = f.ixs]]
+FrzClauses(st, env, cl, i, b, acc) ==
+    IF i > Len(cl) \/ Len(acc) < 0 THEN [ok |-> TRUE, cl |-> acc, b |-> b]
+    ELSE LET c == cl[i]
+             f == Frz(st, env, c.e, b)          \* the iterated / declared / guard expression sees the names bound so far
+         IN IF ~f.ok THEN [ok |-> FALSE, cl |-> acc, b |-> b]
+            ELSE IF c.k = "guard" THEN FrzClauses(st, env, cl, i + 1, b, Append(acc, [c EXCEPT !.e = f.e]))
+            ELSE FrzClauses(st, env, cl, i + 1, b \o LvNames(c.x), Append(acc, [c EXCEPT !.e = f.e]))
+FrzParams(st, env, ps, i, b, acc) ==
+    IF i > Len(ps) \/ Len(acc) < 0 THEN [ok |-> TRUE, ps |-> acc]
+    ELSE LET f == FrzOpt(st, env, ps[i].d, b)
+         IN IF ~f.ok THEN [ok |-> FALSE, ps |-> acc] ELSE FrzParams(st, env, ps, i + 1, b, Append(acc, [ps[i] EXCEPT !.d = f.e]))
+
+Frz(st, env, e, b) ==
+    CASE e.n \in {"lit", "frozen", "cont", "none"} -> FzOk(e)
+      [] e.n = "id" -> IF InSeq(e.x, b) THEN FzOk(e)
+                       ELSE LET r == ReadVar(st, env, e.x) IN IF r.ok THEN FzOk([n |-> "frozen", v |-> r.v]) ELSE FzFail
+      [] e.n \in {"list", "vec"} -> LET f == FrzList(st, env, e.es, 1, b, <<>>, FALSE) IN IF f.ok THEN FzOk([e EXCEPT !.es = f.es]) ELSE FzFail
+      [] e.n = "dict" -> LET f == FrzList(st, env, e.kvs, 1, b, <<>>, FALSE)
+                             d == FrzOpt(st, env, e.def, b)
+                         IN IF f.ok /\ d.ok THEN FzOk([e EXCEPT !.kvs = f.es, !.def = d.e]) ELSE FzFail
+      [] e.n = "idx" -> LET f == FrzList(st, env, <<e.e, e.i>>, 1, b, <<>>, FALSE)
+                        IN IF f.ok THEN FzOk([e EXCEPT !.e = f.es[1], !.i = f.es[2]]) ELSE FzFail
+      [] e.n = "slice" -> LET f == Frz(st, env, e.e, b)  lo == FrzOpt(st, env, e.lo, b)  hi == FrzOpt(st, env, e.hi, b)
+                          IN IF f.ok /\ lo.ok /\ hi.ok THEN FzOk([e EXCEPT !.e = f.e, !.lo = lo.e, !.hi = hi.e]) ELSE FzFail
+      [] e.n = "call" -> LET f == Frz(st, env, e.f, b)  a == FrzList(st, env, e.as, 1, b, <<>>, FALSE)
+                         IN IF f.ok /\ a.ok THEN FzOk([e EXCEPT !.f = f.e, !.as = a.es]) ELSE FzFail
+      [] e.n = "bin" -> LET f == FrzList(st, env, <<e.a, e.b>>, 1, b, <<>>, FALSE)
+                        IN IF f.ok /\ (InSeq(e.op, b) \/ ReadVar(st, env, e.op).ok) THEN FzOk([e EXCEPT !.a = f.es[1], !.b = f.es[2]]) ELSE FzFail
+      [] e.n \in {"and", "or", "coal"} -> LET f == FrzList(st, env, <<e.a, e.b>>, 1, b, <<>>, FALSE)
+                                          IN IF f.ok THEN FzOk([e EXCEPT !.a = f.es[1], !.b = f.es[2]]) ELSE FzFail
+      [] e.n = "seq" -> LET f == FrzList(st, env, e.es, 1, b, <<>>, TRUE) IN IF f.ok THEN FzOk([e EXCEPT !.es = f.es]) ELSE FzFail
+      [] e.n = "if" -> LET c == Frz(st, env, e.c, b)  x == Frz(st, env, e.a, b)  y == FrzOpt(st, env, e.b, b)
+                       IN IF c.ok /\ x.ok /\ y.ok THEN FzOk([e EXCEPT !.c = c.e, !.a = x.e, !.b = y.e]) ELSE FzFail
+      [] e.n = "while" -> LET c == Frz(st, env, e.c, b)  x == Frz(st, env, e.b, b)
+                          IN IF c.ok /\ x.ok THEN FzOk([e EXCEPT !.c = c.e, !.b = x.e]) ELSE FzFail
+      [] e.n = "for" ->
+            LET cs == FrzClauses(st, env, e.cl, 1, b, <<>>)
+            IN IF ~cs.ok THEN FzFail
+               ELSE IF e.body.k \in {"do", "yield"}
+                    THEN LET x == Frz(st, env, e.body.e, cs.b)
+                         IN IF x.ok THEN FzOk([e EXCEPT !.cl = cs.cl, !.body = [e.body EXCEPT !.e = x.e]]) ELSE FzFail
+                    ELSE LET x == FrzList(st, env, <<e.body.ke, e.body.ve>>, 1, cs.b, <<>>, FALSE)
+                         IN IF x.ok THEN FzOk([e EXCEPT !.cl = cs.cl, !.body = [e.body EXCEPT !.ke = x.es[1], !.ve = x.es[2]]]) ELSE FzFail
+      [] e.n = "break" -> LET x == FrzOpt(st, env, e.e, b) IN IF x.ok THEN FzOk([e EXCEPT !.e = x.e]) ELSE FzFail
+      [] e.n \in {"ret", "throw", "freeze"} -> LET x == Frz(st, env, e.e, b) IN IF x.ok THEN FzOk([e EXCEPT !.e = x.e]) ELSE FzFail
+      [] e.n = "try" -> LET x == Frz(st, env, e.b, b)  h == Frz(st, env, e.h, Append(b \o Decls(e.b), e.x))
+                        IN IF x.ok /\ h.ok THEN FzOk([e EXCEPT !.b = x.e, !.h = h.e]) ELSE FzFail
+      [] e.n = "lam" -> LET ps == FrzParams(st, env, e.ps, 1, b, <<>>)
+                            x == Frz(st, env, e.b, b \o [q \in 1..Len(e.ps) |-> e.ps[q].x])
+                        IN IF ps.ok /\ x.ok THEN FzOk([e EXCEPT !.ps = ps.ps, !.b = x.e]) ELSE FzFail
+      [] e.n = "decl" -> LET x == Frz(st, env, e.e, b) IN IF x.ok THEN FzOk([e EXCEPT !.e = x.e]) ELSE FzFail
+      [] e.n = "asg" -> LET t == FrzTarget(st, env, e.x, b)  x == Frz(st, env, e.e, b)
+                        IN IF t.ok /\ x.ok THEN FzOk([e EXCEPT !.x = t.t, !.e = x.e]) ELSE FzFail
+      [] e.n = "opasg" -> LET t == FrzTarget(st, env, e.x, b)  x == Frz(st, env, e.e, b)
+                          IN IF t.ok /\ x.ok /\ (InSeq(e.op, b) \/ ReadVar(st, env, e.op).ok) THEN FzOk([e EXCEPT !.x = t.t, !.e = x.e]) ELSE FzFail
+      [] e.n \in {"pop", "remove", "consume"} -> LET t == FrzTarget(st, env, e.x, b) IN IF t.ok THEN FzOk([e EXCEPT !.x = t.t]) ELSE FzFail
+      [] e.n = "swap" -> LET t == FrzTarget(st, env, e.a, b)  u == FrzTarget(st, env, e.b, b)
+                         IN IF t.ok /\ u.ok THEN FzOk([e EXCEPT !.a = t.t, !.b = u.t]) ELSE FzFail
+      [] e.n = "upd" -> LET f == FrzList(st, env, <<e.e, e.k, e.v>>, 1, b, <<>>, FALSE)
+                        IN IF f.ok THEN FzOk([e EXCEPT !.e = f.es[1], !.k = f.es[2], !.v = f.es[3]]) ELSE FzFail
+
 (* ----------------------------- evaluator ------------------------------- *)
 RECURSIVE Ev(_, _, _)
 RECURSIVE EvList(_, _, _, _, _)
@@ -466,7 +579,11 @@ ForRun(st, env, cl, ci, body, acc) ==
          ELSE IF body.k = "yield"
          THEN LET r == Ev(st, env, body.e)
               IN IF IsVal(r) THEN
-                     (IF body.cata = "first" THEN FR(r.st, "brk", r.v, 0, TRUE, acc)     \* first stops the loop
+                     \* catamorphisms fold as the loop runs: `first` stops it, a value the fold cannot take raises at once
+                     (IF body.cata = "first" THEN FR(r.st, "brk", r.v, 0, TRUE, acc)
+                      ELSE IF body.cata \in {"sum", "product"} /\ r.v.t # "int" THEN FR(r.st, "thr", VStr("type"), 0, FALSE, acc)
+                      ELSE IF body.cata \in {"max", "min"} /\ acc # <<>> /\ ~(r.v.t = "int" /\ acc[1].t = "int") /\ ~(r.v.t = "null" /\ acc[1].t = "null")
+                           THEN FR(r.st, "thr", VStr("type"), 0, FALSE, acc)
                       ELSE FR(r.st, "val", Null, 0, FALSE, Append(acc, r.v)))
                  ELSE IF r.k = "cont" /\ r.lv = 0 THEN FR(r.st, "val", Null, 0, FALSE, acc)
                  ELSE FR(r.st, r.k, r.v, r.lv, r.hv, acc)
@@ -513,8 +630,8 @@ FinishYield(st, cata, acc) ==
       [] cata = "count" -> RVal(st, VInt(CountTruthy(acc, 1, 0)))
       [] cata = "first" -> RThr(st, "empty")
       [] cata = "last" -> IF acc = <<>> THEN RThr(st, "empty") ELSE RVal(st, acc[Len(acc)])
-      [] cata = "max" -> IF acc = <<>> \/ ~AllInts(acc) THEN RThr(st, "empty") ELSE RVal(st, Extremum(acc, 2, acc[1], TRUE))
-      [] cata = "min" -> IF acc = <<>> \/ ~AllInts(acc) THEN RThr(st, "empty") ELSE RVal(st, Extremum(acc, 2, acc[1], FALSE))
+      [] cata = "max" -> IF acc = <<>> THEN RThr(st, "empty") ELSE IF ~AllInts(acc) THEN RVal(st, acc[1]) ELSE RVal(st, Extremum(acc, 2, acc[1], TRUE))
+      [] cata = "min" -> IF acc = <<>> THEN RThr(st, "empty") ELSE IF ~AllInts(acc) THEN RVal(st, acc[1]) ELSE RVal(st, Extremum(acc, 2, acc[1], FALSE))
 RECURSIVE KvToDict(_, _, _)
 KvToDict(acc, i, d) == IF i > Len(acc) \/ Len(d) < 0 THEN d ELSE KvToDict(acc, i + 1, DictPut(d, acc[i].k, acc[i].v))
 
@@ -564,6 +681,8 @@ ModEach(c, path, i, op, w, j, hi) ==
 
 Ev(st, env, e) ==
     CASE e.n = "lit" -> RVal(st, e.v)
+      [] e.n = "frozen" -> RVal(st, e.v)
+      [] e.n = "freeze" -> LET f == Frz(st, env, e.e, <<>>) IN IF f.ok THEN Ev(st, env, f.e) ELSE RThr(st, "freeze")
       [] e.n = "id" -> LET r == ReadVar(st, env, e.x) IN IF r.ok THEN RVal(st, r.v) ELSE RThr(st, "name")
       [] e.n = "list" -> LET r == EvList(st, env, e.es, 1, <<>>) IN IF IsVal(r) THEN RVal(r.st, VList(r.v)) ELSE r
       [] e.n = "vec" -> LET r == EvList(st, env, e.es, 1, <<>>)
